@@ -106,6 +106,21 @@ def cancel_cases(rng, n_act, thorough):
     return out
 
 
+def read_fault_cases(rng):
+    """BEYOND the property's stated fault class ("all single storage-write failures"): one READ of a mapping record by an
+    activation fails (quota scan, create-existence check, any read-back after the write), no write fails; then the code
+    is activated again.  Predicate-only cells: the model has no read faults, these runs are not replayed on it."""
+    out = []
+    for k in (1, 2, 3, 4):
+        for pre in ((), ((101, 1),), ((101, 2),)):
+            for w in ("", "cluster"):
+                a = act(101, 0)
+                a["rfault1"] = k
+                out.append(case([a, act(102, 1)], [0] * 18 + [1] * 14, pre=pre, world=w))
+                out.append(case([dict(a), act(102, 1)], [0] * 3 + [1] * 3 + [0] * 16 + [1] * 14, pre=pre, world=w))
+    return out
+
+
 def stall_cases(rng, n_act, thorough):
     """TIME: caller 0 parked after each of its actions (in particular after its claim), then a stall smaller / larger than
     every lifetime the code uses below the window (admission marker 30 s; a 30 s claim lease would lapse too), then
@@ -411,6 +426,7 @@ def run(ctx, only_cases=None):
         cases += stall_cases(ctx.rng, n_act, thorough)
         # crash points: service context cancelled at each storage-operation boundary, then a fresh activation
         cases += cancel_cases(ctx.rng, n_act, thorough)
+        cases += read_fault_cases(ctx.rng)
         # last-second cells: the same overlapping schedules on a code that lives 900 ms
         cases += [last_second(c) for c in parked_cases("") + parked_cases("cluster")]
         cases += [last_second(c) for c in ctx.rng.sample(ex, min(len(ex), 20000 if thorough else 200))]
@@ -432,7 +448,8 @@ def run(ctx, only_cases=None):
             if nviol[key] == 1:
                 ctx.violation(key, "real conncode service: " + v["msg"], {"case": c, "observed": o})
     # ---- model vs implementation
-    idx = [i for i, o in enumerate(outs) if not o["ambiguous"] and not any(v["kind"] == "stuck" for v in o["viol"])]
+    idx = [i for i, o in enumerate(outs) if not o["ambiguous"] and not any(v["kind"] == "stuck" for v in o["viol"])
+           and not any(t.get("rfault1") for t in cases[i]["threads"])]      # read-fault cells are predicate-only
     terms = [case_value(cases[i], outs[i]) for i in idx]
     mism, unmodelled = [], 0
     try:
@@ -461,13 +478,14 @@ def run(ctx, only_cases=None):
     nontriv = set()
     stats = {"activators": 0, "revokers": 0, "ticks": 0, "faults_hit": 0, "successes": 0, "overlapping_runs": 0,
              "initial_state": {s: 0 for s in STATES}, "structured": 0, "malformed": 0, "ambiguous_timing_skipped": 0,
-             "listing_callers": 0, "last_second_cells": 0, "stalls": 0, "service_context_cancellations": 0, "cluster_world_runs": 0, "shared_service_instance_runs": 0, "entries_skipped_caller_blocked_outside_store": 0,
+             "read_fault_cells_predicate_only": 0, "listing_callers": 0, "last_second_cells": 0, "stalls": 0, "service_context_cancellations": 0, "cluster_world_runs": 0, "shared_service_instance_runs": 0, "entries_skipped_caller_blocked_outside_store": 0,
              "model_unmodelled_branch_skipped": unmodelled}
     for c, o in zip(cases, outs):
         stats["activators"] += sum(t["kind"] == "act" for t in c["threads"])
         stats["revokers"] += sum(t["kind"] == "rev" for t in c["threads"])
         stats["ticks"] += 1 if o["ticked"] else 0
         stats["listing_callers"] += sum(t["kind"] == "list" for t in c["threads"])
+        stats["read_fault_cells_predicate_only"] += 1 if any(t.get("rfault1") for t in c["threads"]) else 0
         stats["service_context_cancellations"] += sum(1 for t, ti in zip(o["threads"], c["threads"]) if ti["kind"] == "cancel" and t["res"] == 100)
         stats["stalls"] += sum(1 for t, ti in zip(o["threads"], c["threads"]) if ti["kind"] == "stall" and t["res"] == 100)
         stats["last_second_cells"] += 1 if c.get("ttl_ms") else 0
